@@ -56,8 +56,7 @@ func h02Same(s string, ref []*rStmt, got []*Statement) {
 		check(x.hasArg == y.HasArgument, "argument presence")
 		check(x.arg == y.Argument, "argument string is what RFC 7950 6.1.3 prescribes")
 		l, c := rLineCol(s, x.pos)
-		check(y.line == l && y.col == c, "C16: statement position is the first character of its keyword")
-		check(y.file == "f", "C16: statement carries the file name")
+		check(y.Location() == "f:"+hItoa(int64(l))+":"+hItoa(int64(c)), "C16: statement position (file, line, column) is the first character of its keyword")
 		h02Same(s, x.kids, y.statements)
 	}
 }
